@@ -921,6 +921,20 @@ func (fv *FV) specCall(env *Env, c *SCall) Term {
 		need(2)
 		k := fv.spec(env, c.Args[1])
 		return Term{S: sel(fv.heapGet(env.st, fv.callsComp("ret", "")), k.S), Sort: sBool}
+	case "oldelem":
+		// oldelem(s, i): element i of slice s in the old heap; s is evaluated in the old state, i in the current one
+		need(2)
+		if env.old == nil {
+			fv.sfail("oldelem() needs an old state")
+		}
+		on := *env
+		on.st = env.old
+		if env.oldNames != nil {
+			on.names = env.oldNames
+		}
+		sl := fv.spec(&on, c.Args[0])
+		ix := fv.spec(env, c.Args[1])
+		return fv.indexTerm(env.old, sl, ix)
 	case "backing":
 		need(2)
 		s := fv.spec(env, c.Args[0])
